@@ -9,6 +9,11 @@ CHECKS = {
   text="Stateful property-based testing: generated histories of topology edits (valid and invalid arguments) are applied to the real Bondmachine and to a reference model of named bonds; well-formedness and bond-set equality are checked after every edit. Held on everything generated; not a proof.",
   note="Trusted: the reference model in harness/c10 (written from the statement and the documented renumbering), rapid's generators. Negative ids are outside the domain.",
   technique="property-based testing (rapid), stateful/model-based generation of edit histories against a reference model"),
+ "C01": dict(
+  category="translation_validation",
+  text="Per-program differential validation: for generated architectures (Rsize 8..64, R=1..3, N/M/L/O, WordSize overrides, opcode subsets of the co-implemented table, OnlyDestRegs with requirements derived from the program) and generated programs with in-range operands and per-retire input vectors, the text returned by Arch/Conproc/Rom/Ram.Write_verilog is executed clock by clock by /verif's Verilog interpreter and compared with procbuilder.VM after every retired instruction (pc, all registers, output registers); the optimised HDL must agree as well. Found the single-operand shift defect of the simulator (fixed) and D12 (recorded).",
+  note="Trusted: /verif's Verilog interpreter (assumptions A1 power-up zero, A2 delays ignored), the co-implemented table (harness/c01/table.go), the retire-point definition. Opcodes outside the table are not compared.",
+  technique="differential property-based testing (rapid): emitted HDL under an interpreter vs the ISA simulator, lock-step at retire points; metamorphic check optimised vs unoptimised HDL"),
  "C03": dict(
   text="Property-based testing of the instruction encoder over every statically registered opcode and one instance of every dynamic family: generated architectures (R=1, single-bit port fields, WordSize overrides, all modes) and operand tuples in and out of range; oracle: error, or a word of exactly Max_word bits over {0,1} whose disassembly equals the line by value, re-assembly of the disassembly gives the word back, and out-of-range operands are rejected. Plus generated/mutated raw lines and a native fuzz target (thorough). Found D1 and the tsp defects (fixed in /repo); one open finding (64-bit immediates disassemble negative).",
   note="Trusted: the per-opcode operand-kind table in harness/c03/operand_kinds.go (read from each opcode's Assembler), numeric comparison of operands. Shared-object opcodes are covered with generated Shared_constraints.",
@@ -40,7 +45,6 @@ CHECKS = {
 }
 
 PENDING = {
- "C01": "check under construction in this session (planned: differential PBT of emitted Verilog under /verif's interpreter vs the Go ISA simulator, DESIGN.md §3 C01)",
  "C02": "check under construction (planned: stream-equality differential + netlist check, DESIGN.md §3 C02)",
  "C05": "check under construction (planned: reference interpreter of BASM source vs simulation)",
  "C06": "check under construction (planned: dataflow evaluator vs every partition)",
